@@ -176,7 +176,8 @@ SaveNFT(w, s, a, tok, e, rae) ==
   IF Blocked(w, s, a, tok, e, rae) THEN F(w)
   ELSE LET k == tok \o NBHex(EntryNonce(e)) IN
        IF Blocked(w, s, a, k, e, rae) THEN F(w)
-       ELSE IF e.val <= 0 THEN T(DelE(w, a, k))
+       \* D11: a zero-balance fungible entry that still carries a flag stays (like saveESDTData); everything else at zero is removed
+       ELSE IF e.val <= 0 /\ (e.hm \/ AllZero(e.props) \/ BugOn("D11")) THEN T(DelE(w, a, k))
        ELSE T(SetE(w, a, k, e))
 
 PayableOK(w, a) == ~(a \in DOMAIN w.oracle) \/ w.oracle[a] = "yes"
@@ -191,8 +192,10 @@ AddNFTToDest(w, s, a, tok, x, verify, rae, multi) ==
        ELSE LET cur == GetE(ac, k) IN
             IF Blocked(w, s, a, tok, cur, rae) THEN F(w)
             ELSE IF cur.hm /\ (~x.hm \/ cur.meta.hash # x.meta.hash) THEN F(w)
-            ELSE LET add == IF multi /\ BugOn("D1") /\ ~cur.hm THEN 0 ELSE cur.val IN
-                 SaveNFT(w, s, a, tok, [x EXCEPT !.val = x.val + add], rae)
+            ELSE LET add == IF multi /\ BugOn("D1") /\ ~cur.hm THEN 0 ELSE cur.val
+                     \* D10: the freeze flag belongs to the account: a fungible credit keeps the destination's own properties
+                     pr == IF multi /\ ~x.hm /\ ~BugOn("D10") THEN cur.props ELSE x.props IN
+                 SaveNFT(w, s, a, tok, [x EXCEPT !.val = x.val + add, !.props = pr], rae)
 
 RolesOf(ac, tok) == IF tok \in DOMAIN ac.roles THEN ac.roles[tok] ELSE <<>>
 RolesUndecodable(ac, tok) == ("454c524f4e44726f6c6565736474" \o tok) \in DOMAIN ac.bad
